@@ -59,3 +59,104 @@ Proof.
   rewrite He, Hr, Hb. split; [exact H1|split; [exact H4|split; [exact H3|]]].
   rewrite H2 in Hs. exact Hs.
 Qed.
+
+(** ** C18: 'evaluating' is reported exactly when the body runs *)
+Lemma step_target_ran c w l d r vs w' v evs ran :
+  step_target c w l d r vs = (w', v, evs, ran) ->
+  (ran = true -> is_fn d = true /\ In (EEvaluating l) evs) /\
+  (c_dry c = false -> c_crashed c = false -> is_fn d = true -> In (EEvaluating l) evs -> ran = true).
+Proof.
+  unfold step_target.
+  destruct (first_failure vs) as [[]|];
+    try (intros H; inversion H; subst; split; [discriminate|intros _ _ _ Hin; simpl in Hin; intuition discriminate]).
+  destruct (negb (c_always c) && deps_up_to_date r vs && up_to_date w d r &&
+            negb (r_rerun r || match d with Fn _ _ _ _ _ a => a | Src _ => false end)).
+  { intros H; inversion H; subst; split; [discriminate|intros _ _ _ Hin; simpl in Hin; intuition discriminate]. }
+  destruct (c_dry c).
+  { intros H; inversion H; subst; split; [discriminate|intros Hd; discriminate]. }
+  destruct d as [deps srcs gens env k alw|p].
+  - destruct (c_crashed c && negb (mem l (c_ran c))) eqn:Hcr.
+    { intros H; inversion H; subst; split; [discriminate|].
+      intros _ Hc. rewrite Hc in Hcr. discriminate. }
+    destruct (mem l (c_fail c)).
+    + intros H; inversion H; subst. split; [intros _; split; [reflexivity|simpl; auto]|reflexivity].
+    + destruct (c_crashed c && negb (mem l (c_recorded c))); intros H; inversion H; subst;
+        (split; [intros _; split; [reflexivity|simpl; auto]|reflexivity]).
+  - destruct (c_crashed c && negb (mem l (c_recorded c))); intros H; inversion H; subst;
+      (split; [discriminate|intros _ _ Hf; simpl in Hf; discriminate]).
+Qed.
+
+Definition ran_inv (c : bcfg) (s : bstate) : Prop :=
+  forall l, In l (b_ran s) <->
+            (exists d, lookup l (w_proj (b_w s)) = Some d /\ is_fn d = true) /\ In (EEvaluating l) (b_events s).
+
+Lemma in_events_of l e evs : ev_label e = l -> (In e evs <-> In e (events_of l evs)).
+Proof.
+  intros H. unfold events_of. rewrite filter_In. rewrite H, N.eqb_refl. intuition.
+Qed.
+
+Lemma eval1_ran_inv c s l0 :
+  c_dry c = false -> c_crashed c = false ->
+  ev_inv c s -> ran_inv c s -> ran_inv c (eval1 c s l0).
+Proof.
+  intros Hdry Hcr Hev Hran.
+  destruct (lookup l0 (b_vis s)) as [v0|] eqn:Hv0.
+  { rewrite (eval1_visited _ _ _ _ Hv0). exact Hran. }
+  unfold eval1. rewrite Hv0.
+  destruct (lookup l0 (w_proj (b_w s))) as [d0|] eqn:Hd0.
+  2:{ unfold finish. intros l. cbn [b_ran b_events b_w app]. apply Hran. }
+  destruct (dep_visits (b_vis s) (deps_of (w_proj (b_w s)) d0)) as [vs|]; [|intros l; apply Hran].
+  destruct (step_target c (b_w s) l0 d0 (rec_of (b_w s) l0) vs) as [[[w' v] evs] ran] eqn:Hst.
+  destruct (step_target_frame _ _ _ _ _ _ _ _ _ _ Hst) as (Hproj & _ & _).
+  pose proof (step_target_shape _ _ _ _ _ _ _ _ _ _ Hst) as Hsh.
+  pose proof (shape_labels _ _ _ Hsh) as Hlab.
+  destruct (step_target_ran _ _ _ _ _ _ _ _ _ _ Hst) as (Hr1 & Hr2).
+  destruct (Hev l0) as [_ Hnone]. specialize (Hnone Hv0).
+  unfold finish. intros l. cbn [b_ran b_events b_w]. rewrite Hproj.
+  destruct (N.eq_dec l l0) as [->|Hne].
+  - (* the evaluated label *)
+    assert (Hnoold : ~ In (EEvaluating l0) (b_events s)).
+    { intros Hin. apply (in_events_of l0 (EEvaluating l0) _ eq_refl) in Hin. rewrite Hnone in Hin. destruct Hin. }
+    assert (Hnotran : ~ In l0 (b_ran s)).
+    { intros Hin. apply Hran in Hin. destruct Hin as [_ Hin]. exact (Hnoold Hin). }
+    split.
+    + intros Hin. destruct ran.
+      * destruct (Hr1 eq_refl) as [Hfn Hine]. split; [exists d0; split; assumption|apply in_or_app; left; exact Hine].
+      * exfalso. exact (Hnotran Hin).
+    + intros [(d & Hd & Hfn) Hin]. rewrite Hd0 in Hd. inversion Hd; subst d.
+      apply in_app_or in Hin. destruct Hin as [Hin|Hin]; [|exfalso; exact (Hnoold Hin)].
+      rewrite (Hr2 Hdry Hcr Hfn Hin). left; reflexivity.
+  - (* another label: its events and membership are untouched *)
+    assert (Hev' : In (EEvaluating l) (evs ++ b_events s) <-> In (EEvaluating l) (b_events s)).
+    { split; [|intros H; apply in_or_app; right; exact H].
+      intros H. apply in_app_or in H. destruct H as [H|H]; [|exact H].
+      exfalso. apply Hne. exact (Hlab _ H). }
+    rewrite Hev'. rewrite <- (Hran l).
+    destruct ran; [|reflexivity]. split; [intros [E|H]; [congruence|exact H]|intros H; right; exact H].
+Qed.
+
+Lemma fold_ran_inv c order s :
+  c_dry c = false -> c_crashed c = false ->
+  ev_inv c s -> ran_inv c s -> ran_inv c (fold_left (eval1 c) order s).
+Proof.
+  intros Hdry Hcr. revert s; induction order as [|l order IH]; intros s He Hr; simpl; [exact Hr|].
+  apply IH; [apply eval1_ev_inv; exact He|apply eval1_ran_inv; assumption].
+Qed.
+
+(** in a build that is neither dry nor killed, a function target's body runs exactly when its evaluating event is
+    delivered *)
+Theorem evaluating_iff_body_runs c w l0 l :
+  c_dry c = false -> c_crashed c = false ->
+  (In l (o_ran (build c w l0)) <->
+   (exists d, lookup l (w_proj w) = Some d /\ is_fn d = true) /\ In (EEvaluating l) (o_events (build c w l0))).
+Proof.
+  intros Hdry Hcr. unfold build. rewrite load_proj.
+  destruct (link_ok (w_proj w)).
+  2:{ cbn [o_ran o_events]. split; [intros []|intros [_ []]]. }
+  unfold run_order; cbn [o_ran o_events].
+  assert (H0e : ev_inv c (mkB (load w) [] [] [] false)) by (intros x; simpl; split; [constructor|reflexivity]).
+  assert (H0r : ran_inv c (mkB (load w) [] [] [] false)) by (intros x; simpl; split; [intros []|intros [_ []]]).
+  pose proof (fold_ran_inv c (order_of (w_proj w) l0) _ Hdry Hcr H0e H0r l) as H.
+  rewrite fold_proj in H. cbn [b_w] in H. rewrite load_proj in H.
+  rewrite <- !in_rev. exact H.
+Qed.
